@@ -577,6 +577,139 @@ func checkReaderDiscipline(c *Ctx, p *packages.Package) {
 		fmt.Sprintf("%d of %d loads in next() are guarded only by the position of the forward pointer: when forward arrives at a half boundary again after Retract, the next chunk overwrites the half that was just loaded and a buffer-half of input disappears", nLoads-guardedLoads, nLoads),
 		"an input longer than the buffer half with a token that begins on the last byte of a half")
 	}
+	// (b2') the state that guards a load moves on only when the load succeeded: Retract clears the latched error, so a load
+	// that failed (end of the source) is asked for again when the byte before it is read a second time, and must then fail
+	// again; if the guard has moved on, the end of the input is never latched again and stale buffer contents are lexed
+	{
+		isNilTest := func(e ast.Expr, op token.Token) bool {
+			found := false
+			ast.Inspect(e, func(m ast.Node) bool {
+				if b, ok := m.(*ast.BinaryExpr); ok && b.Op == op && isNilExpr(info, b.Y) {
+					if t := info.TypeOf(b.X); t != nil && isErr(t) {
+						found = true
+					}
+				}
+				return true
+			})
+			return found
+		}
+		nAdv, condAdv := 0, 0
+		var badPos token.Pos
+		for _, fdl := range reachFns {
+			// loads and their guard fields in this function
+			var loadPos []token.Pos
+			ast.Inspect(fdl.Body, func(n ast.Node) bool {
+				if call, ok := n.(*ast.CallExpr); ok {
+					if sel, ok := call.Fun.(*ast.SelectorExpr); ok && loaders[sel.Sel.Name] {
+						loadPos = append(loadPos, call.Pos())
+					}
+				}
+				return true
+			})
+			if len(loadPos) == 0 {
+				continue
+			}
+			// guard fields: fields tested by an if that encloses a load (or by an early return before it)
+			guards := map[string]bool{}
+			var stack []ast.Node
+			ast.Inspect(fdl.Body, func(n ast.Node) bool {
+				if n == nil {
+					stack = stack[:len(stack)-1]
+					return true
+				}
+				stack = append(stack, n)
+				if call, ok := n.(*ast.CallExpr); ok {
+					if sel, ok := call.Fun.(*ast.SelectorExpr); ok && loaders[sel.Sel.Name] {
+						for _, anc := range stack {
+							if ifs, ok := anc.(*ast.IfStmt); ok && ifs.Body.Pos() <= call.Pos() && call.End() <= ifs.Body.End() {
+								if f := fieldIn(ifs.Cond); f != "" {
+									guards[f] = true
+								}
+							}
+						}
+					}
+				}
+				return true
+			})
+			for _, st := range fdl.Body.List {
+				if ifs, ok := st.(*ast.IfStmt); ok && ifs.Else == nil && len(ifs.Body.List) >= 1 && st.End() < loadPos[0] {
+					if _, isRet := ifs.Body.List[len(ifs.Body.List)-1].(*ast.ReturnStmt); isRet {
+						if f := fieldIn(ifs.Cond); f != "" {
+							guards[f] = true
+						}
+					}
+				}
+			}
+			// every assignment to a guard field after a load
+			stack = nil
+			ast.Inspect(fdl.Body, func(n ast.Node) bool {
+				if n == nil {
+					stack = stack[:len(stack)-1]
+					return true
+				}
+				stack = append(stack, n)
+				as, ok := n.(*ast.AssignStmt)
+				if !ok || len(as.Lhs) != 1 {
+					return true
+				}
+				sel, ok := as.Lhs[0].(*ast.SelectorExpr)
+				if !ok || !guards[sel.Sel.Name] {
+					return true
+				}
+				after := false
+				for _, lp := range loadPos {
+					if lp < as.Pos() {
+						after = true
+					}
+				}
+				if !after {
+					return true
+				}
+				nAdv++
+				ok2 := false
+				for k, anc := range stack {
+					if ifs, isIf := anc.(*ast.IfStmt); isIf && ifs.Body.Pos() <= as.Pos() && as.End() <= ifs.Body.End() && isNilTest(ifs.Cond, token.EQL) {
+						ok2 = true
+					}
+					// an earlier `if err != nil { return }` in an enclosing block
+					if blk, isBlk := anc.(*ast.BlockStmt); isBlk && k+1 < len(stack) {
+						for _, st := range blk.List {
+							if st.End() > as.Pos() {
+								break
+							}
+							afterLoad := false
+							for _, lp := range loadPos {
+								if lp < as.Pos() && (lp < st.Pos() || (st.Pos() <= lp && lp < st.End())) {
+									afterLoad = true
+								}
+							}
+							if ifs, isIf := st.(*ast.IfStmt); isIf && afterLoad && isNilTest(ifs.Cond, token.NEQ) && len(ifs.Body.List) >= 1 {
+								if _, isRet := ifs.Body.List[len(ifs.Body.List)-1].(*ast.ReturnStmt); isRet {
+									ok2 = true
+								}
+							}
+						}
+					}
+				}
+				if ok2 {
+					condAdv++
+				} else {
+					badPos = as.Pos()
+				}
+				return true
+			})
+		}
+		key := "reader: the state guarding a load moves on only when the load succeeded"
+		switch {
+		case nAdv == 0:
+			c.Undecided("R19.4", key, token.NoPos, "no assignment to the state that guards the loads was found after a load")
+		case condAdv == nAdv:
+			c.Pass("R19.4", key, token.NoPos, "")
+		default:
+			_ = badPos
+			c.Fail("R19.4", key, token.NoPos, fmt.Sprintf("%d of %d updates of the load guard are made whether or not the load succeeded: a load that meets the end of the source latches io.EOF; when the byte before it was a look-ahead, Retract clears the latch, the byte is read again, the load is not asked for again, io.EOF is never latched again and the lexer goes on into stale buffer contents", nAdv-condAdv, nAdv), "an input whose length is a multiple of the buffer half and whose last character is a retracted look-ahead (e.g. a final newline after a token)")
+		}
+	}
 	// (b3) ring invariant: when forward arrives at len(buff) it is set back to 0 on every path (Lexeme and Retract walk the ring modulo len(buff))
 	wrapFound, wrapOK := false, false
 	ast.Inspect(nextB.Body, func(n ast.Node) bool {
